@@ -211,12 +211,7 @@ def compare_outcome(impl, model, opts=None):
     if "err" in ic or "err" in mc:
         if "err" in ic and "err" in mc:
             ie = ic["err"][0]
-            # an error whose wording is not recognised (kind "other") is still an error: only the file, when the message
-            # names one, has to agree (message texts are not part of any property)
-            if ie.get("kind") == "other":
-                ok = ie.get("file") is None or any(me.get("file") in (None, ie.get("file")) for me in mc["err"])
-            else:
-                ok = any(all(ie.get(k) == me.get(k) for k in ("file", "kind", "line") if k in me) for me in mc["err"])
+            ok = err_matches(ie, mc["err"])
             if not ok:
                 diffs.append(("ctx.err", ic["err"], mc["err"]))
         else:
@@ -244,6 +239,38 @@ def compare_outcome(impl, model, opts=None):
     if impl.get("exit") != model.get("exit"):
         diffs.append(("exit", impl.get("exit"), model.get("exit")))
     return diffs
+
+
+def names_path(msg, path):
+    """does the message name this file path (not merely a longer path ending in it)?"""
+    if not msg or not path:
+        return False
+    for m in re.finditer(re.escape(path), msg):
+        before = msg[m.start() - 1] if m.start() > 0 else " "
+        if not (before.isalnum() or before in "/._-"):
+            return True
+    return False
+
+
+def err_matches(ie, model_errs):
+    """is the implementation's parse error one of those the model predicts? Message WORDING is no observable of any property:
+    the error class (`kind`) and the line are compared where the wording lets them be recognised, and the file by the path the
+    message names - read from the recognised wording, else searched in the message text"""
+    for me in model_errs:
+        mf = me.get("file")
+        f = ie.get("file")
+        if f is None and mf is not None and names_path(ie.get("msg"), mf):
+            f = mf
+        if mf is not None and f is not None and f != mf:
+            continue
+        if mf is not None and f is None and ie.get("msg") is not None:
+            continue                      # the message is there and does not name the file the model predicts
+        if ie.get("kind") not in (None, "other") and "kind" in me and ie["kind"] != me["kind"]:
+            continue
+        if ie.get("kind") not in (None, "other") and ie.get("line") is not None and me.get("line") is not None and ie["line"] != me["line"]:
+            continue
+        return True
+    return False
 
 
 def run_model(cases_path, out_path):
